@@ -162,6 +162,14 @@ func runC08(l *core.Ledger) {
 	c08B3(l, r)
 	c08B4(l, r, eps)
 	c08B4b(l, r)
+	// B7: a correctable's future is its Done channel and the channels Watch hands out: the
+	// completion that the end of the context forces closes every one of them only if a watcher
+	// cannot be registered after completion (C11-K7) and the state is read under the lock (C11-K6)
+	l.Rule("C08-B7", "the channels Watch hands out are completed with the call: a watcher is registered only on an edge where the call is seen not done under the Correctable's lock, and completion releases every watcher (C11-K6, C11-K7 re-run)")
+	l.With(map[string]string{"C11-K6": "C08-B7", "C11-K7": "C08-B7"}, func() {
+		c11Watch(l, r)
+		c11Locks(l, r)
+	})
 }
 
 // c08Walk checks every blocking op reachable from the frame's function.
